@@ -1,9 +1,9 @@
 (* C11 -- only the documented extent of caller buffers is read or written.
    Property theorems only: statement + exact + Print Assumptions. *)
 From Coq Require Import List ZArith Bool.
-From LJT Require Import model.Extent model.ExtentApi model.ExtentTmp model.ExtentRows gen.GenAlign gen.GenTail
+From LJT Require Import model.Extent model.ExtentApi model.ExtentTmp model.ExtentRows model.ExtentHist gen.GenAlign gen.GenTail
   proofs.ExtentProofs proofs.ExtentYuvProofs proofs.ExtentApiProofs proofs.ExtentTmpProofs proofs.ExtentRowsProofs
-  proofs.ExtentExamples.
+  proofs.ExtentHistProofs proofs.ExtentExamples.
 Import ListNotations.
 Local Open Scope Z_scope.
 
@@ -146,6 +146,55 @@ Example C11_ex_rows :
   read_scanlines false [(2, 50); (2, 48)] 3 = ([0; 1; 2; 3], 4) /\
   crop_loop true [[(2, 9); (2, 7)]; [(1, 6); (2, 5)]] 14 14 5 = [0; 1; 2; 3; 4].
 Proof. exact ex_rows. Qed.
+
+(* histories: whatever image / scaling factor the stored region was validated against, the re-check of
+   tj3Decompress8/12 (left boundary, width, bottom edge) against the image and scaling factor actually
+   used lets 0 be returned only when the rows written are exactly the documented rows of the region,
+   the region lies inside the scaled image and is iMCU aligned; and the call always returns *)
+Theorem C11_recheck_sound : forall jw jh num den align c ow oh,
+  1 <= jw -> 1 <= jh -> 1 <= num -> 1 <= den -> 1 <= align ->
+  0 <= r_x c -> 0 <= r_y c -> stored_region c ->
+  dec_recheck true true true jw jh num den align c = Accepted ow oh ->
+  ow = dec_out_w jw num den c /\ oh = dec_out_h jh num den c /\ 1 <= ow /\ 1 <= oh /\
+  r_x c + ow <= tjscaled jw num den /\ r_y c + oh <= tjscaled jh num den /\ r_x c mod align = 0.
+Proof. exact recheck_sound. Qed.
+Print Assumptions C11_recheck_sound.
+
+Theorem C11_recheck_never_hangs : forall jw jh num den align c,
+  dec_recheck true true true jw jh num den align c <> NoReturn.
+Proof. exact recheck_never_hangs. Qed.
+Print Assumptions C11_recheck_never_hangs.
+
+Theorem C11_hist_region_stored : forall jwA jhA n1 d1 mcuw req, 1 <= jwA -> 1 <= jhA -> 1 <= n1 -> 1 <= d1 ->
+  let c := hist_region jwA jhA n1 d1 mcuw req in stored_region c /\ 0 <= r_x c /\ 0 <= r_y c.
+Proof. exact hist_region_stored. Qed.
+Print Assumptions C11_hist_region_stored.
+
+(* which checks the source under test has (dec_chk_* read by tools/gen_Align.py); a missing check comes
+   with its counterexample: rows 8 pixels too wide (seeded C11-4) / a call that never returns (F11) *)
+Theorem C11_recheck_current :
+  (if dec_chk_left && dec_chk_width && dec_chk_bottom then recheck_ok true true true else True) /\
+  (if dec_chk_left && dec_chk_width then True
+   else exists jw jh num den align c ow oh, set_crop jw jh 1 2 16 c = Some c /\
+        dec_recheck false false true jw jh num den align c = Accepted ow oh /\ dec_out_w jw num den c < ow) /\
+  (if dec_chk_bottom then True
+   else exists jwA jhA jw jh c, set_crop jwA jhA 1 1 8 (mkRegion 0 0 0 50) = Some c /\
+        dec_recheck true true false jw jh 1 1 8 c = NoReturn).
+Proof. exact recheck_current. Qed.
+Print Assumptions C11_recheck_current.
+
+(* the C type of row_pointer[i] = &buf[i * (size_t)pitch]: no row offset wraps for any int height, pitch *)
+Theorem C11_row_ptr_no_wrap : forall base pitch h bu i,
+  0 <= pitch < 2 ^ 31 -> 0 <= i < h -> h < 2 ^ 31 ->
+  row_ptr_c rowptr_mul_bits base pitch h bu i = row_ptr base pitch h bu i.
+Proof. exact row_ptr_c_no_wrap. Qed.
+Print Assumptions C11_row_ptr_no_wrap.
+
+Theorem C11_row_ptr_int32_refuted :
+  exists pitch h i, 0 <= pitch < 2 ^ 31 /\ 0 <= i < h /\ h < 2 ^ 31 /\
+    wrap_int32 (i * pitch) = i * pitch - 2 ^ 32 /\ wrap_int32 (i * pitch) < 0.
+Proof. exact row_ptr_int32_wraps. Qed.
+Print Assumptions C11_row_ptr_int32_refuted.
 
 (* (5) The property itself is extent_respected applied to the accesses the COMPILED LIBRARY
    performs on caller memory (machine loads and stores).  That function is not an object
